@@ -20,6 +20,10 @@ import os
 import re
 
 from vplib import Job, REPO
+
+# example obligations link the whole library (precompiled once per run): a library function the example starts to call is
+# then inlined with its real body instead of being an undefined function
+LIBSRC = ['src/avtp/Utils.c']
 from handjobs7 import ENV3
 
 CRF_ENV = r'''
@@ -178,7 +182,7 @@ def crf_listener_jobs(model, tier, config='le'):
 
     def mk(name, enforce, replace, call, bounded=None, unwind=None, loops=None, timeout=1800, extra=(), cbmc=(), sa=''):
         src = pre + sa + 'void harness(void)\n{\n' + hv + qs + '    ' + call + '\n    VP_CANARY();\n}\n'
-        return Job('examples/crf-listener/' + name, src, [], enforce=enforce, replace=replace, owners=own, clause_map=_tags(src),
+        return Job('examples/crf-listener/' + name, src, LIBSRC, enforce=enforce, replace=replace, owners=own, clause_map=_tags(src),
                    function='crf-listener.c:' + enforce.split('/')[0], kind='example', config=config, includes=inc, timeout=timeout,
                    obj_bits=10, unwind=unwind, bounded=bounded, loop_contracts=loops, assumptions=CRF_ASSUME + list(extra), extra_cbmc=list(cbmc))
 
